@@ -45,6 +45,10 @@ type SmtpScenario struct {
 	TLS        string            `json:"tls,omitempty"` // "" = NoTLS, "mandatory", "opportunistic" (STARTTLS with a real handshake)
 	Timeout    time.Duration     `json:"-"`             // real-time timeout (only matters inside TLS, where waits are real)
 	Msgs       []SmtpMsg         `json:"msgs"`
+	// Variant != 0: equivalent API entry points chosen from this seed (setters instead of options;
+	// DialAndSend, or DialWithContext + Send + Close on the shared connection, or the explicit
+	// DialToSMTPClientWithContext + SendWithSMTPClient + CloseWithSMTPClient, instead of DialAndSendWithContext)
+	Variant uint64 `json:"variant,omitempty"`
 }
 
 type MsgResult struct {
@@ -160,6 +164,14 @@ func RunScenario(sc *SmtpScenario) (run *SmtpRun, msgs []*mail.Msg) {
 	if timeout == 0 {
 		timeout = 5 * time.Second
 	}
+	vr := NewRng(sc.Variant, "client-variant")
+	pick := func(n int) int {
+		if sc.Variant == 0 {
+			return 0
+		}
+		return vr.Intn(n)
+	}
+	var later []func(c *mail.Client)
 	opts := []mail.Option{mail.WithTLSPolicy(mail.NoTLS), mail.WithDialContextFunc(dial), mail.WithTimeout(timeout)}
 	if sc.TLS != "" {
 		tlsMaterial()
@@ -170,7 +182,12 @@ func RunScenario(sc *SmtpScenario) (run *SmtpRun, msgs []*mail.Msg) {
 		if sc.TLS == "opportunistic" {
 			pol = mail.TLSOpportunistic
 		}
-		opts = append(opts, mail.WithTLSPolicy(pol), mail.WithTLSConfig(&tls.Config{ServerName: "verif.example", RootCAs: tlsRoots, MinVersion: tls.VersionTLS12}))
+		cfg := &tls.Config{ServerName: "verif.example", RootCAs: tlsRoots, MinVersion: tls.VersionTLS12}
+		if pick(2) == 1 {
+			later = append(later, func(c *mail.Client) { c.SetTLSPolicy(pol); _ = c.SetTLSConfig(cfg) })
+		} else {
+			opts = append(opts, mail.WithTLSPolicy(pol), mail.WithTLSConfig(cfg))
+		}
 	}
 	if sc.Helo != "" {
 		opts = append(opts, mail.WithHELO(sc.Helo))
@@ -197,16 +214,53 @@ func RunScenario(sc *SmtpScenario) (run *SmtpRun, msgs []*mail.Msg) {
 		run.Stage = "config"
 		return
 	}
+	for _, f := range later {
+		f(client)
+	}
 	for i, sm := range sc.Msgs {
 		msgs = append(msgs, buildSmtpMsg(i, sm))
 	}
+	how := pick(4)
 	if !watchdog(60*time.Second, func() {
 		defer func() {
 			if r := recover(); r != nil {
 				run.Panic = r
 			}
 		}()
-		run.Err = client.DialAndSendWithContext(context.Background(), msgs...)
+		switch how {
+		case 1:
+			run.Err = client.DialAndSend(msgs...)
+		case 2:
+			// the shared connection of the Client: dial, Send, Close (the wrapping of DialAndSendWithContext mirrored)
+			if err := client.DialWithContext(context.Background()); err != nil {
+				run.Err = fmt.Errorf("dial failed: %w", err)
+				return
+			}
+			if err := client.Send(msgs...); err != nil {
+				_ = client.Close()
+				run.Err = fmt.Errorf("send failed: %w", err)
+				return
+			}
+			if err := client.Close(); err != nil {
+				run.Err = fmt.Errorf("failed to close connection: %w", err)
+			}
+		case 3:
+			sc2, err := client.DialToSMTPClientWithContext(context.Background())
+			if err != nil {
+				run.Err = fmt.Errorf("dial failed: %w", err)
+				return
+			}
+			if err := client.SendWithSMTPClient(sc2, msgs...); err != nil {
+				_ = client.CloseWithSMTPClient(sc2)
+				run.Err = fmt.Errorf("send failed: %w", err)
+				return
+			}
+			if err := client.CloseWithSMTPClient(sc2); err != nil {
+				run.Err = fmt.Errorf("failed to close connection: %w", err)
+			}
+		default:
+			run.Err = client.DialAndSendWithContext(context.Background(), msgs...)
+		}
 	}) {
 		run.Panic = "the call did not return within 60 s of real time (all waits of the scripted peer are virtual or bounded by the configured timeout)"
 		if conn != nil {
